@@ -3,6 +3,7 @@
 (* Case enumeration for C08: every state is one metric query + database with exp = LogQLSem!EvalMetric (the    *)
 (* definition: bucket, range function, vector aggregation, comparison, topk, instants) and pl =                *)
 (* LogQLPlan!PlanMetric (SQL planners + ZeroEater + FixPeriodPlanner as functions on rows).                    *)
+(* Frags is the set of fragments enumerated in one run:                                                        *)
 (*   Frag = "R"  range functions without unwrap, range x step (<, =, >) x window alignment x unit (1 s: plain  *)
 (*               path, 15 s: metrics_15s shortcut), every database of <= MaxEntries entries on ticks 0..7      *)
 (*   Frag = "U"  unwrap functions with by / without, every database of <= MaxEntries entries on ticks 2..7     *)
@@ -13,7 +14,7 @@
 (***************************************************************************************************************)
 EXTENDS LogQLPlan, Json, SequencesExt
 
-CONSTANTS Frag, MaxEntries, ExportMod, ExportSeed, ExportModDev, SCases
+CONSTANTS Frags, Mods, ModsDev, DBMods, MaxEntries, ExportSeed, SCases
 
 VARIABLES idx, c, exp, pl
 vars == <<idx, c, exp, pl>>
@@ -51,9 +52,9 @@ KindR(k, t) == CASE k = 0 -> MEnt(R1, t, 1, "log", "plain", NoFld)
 TicksOfR(mask) == {t \in 0..7 : Bit(mask, t)}
 DBOfR(mask, digits) == LET ts == SortSeq(SetToSeq(TicksOfR(mask)), <)
                        IN  [i \in 1..Len(ts) |-> KindR((digits \div PowN(4, i - 1)) % 4, ts[i])]
-DIsR == UNION {{m * 64 + d : d \in 0..(PowN(4, Cardinality(TicksOfR(m))) - 1)} :
+DIsR == IF "R" \notin Frags THEN {} ELSE UNION {{m * 64 + d : d \in 0..(PowN(4, Cardinality(TicksOfR(m))) - 1)} :
                  m \in {mm \in 1..255 : Cardinality(TicksOfR(mm)) <= MaxEntries}}
-QueriesR == IF Frag # "R" THEN {} ELSE
+QueriesR == IF "R" \notin Frags THEN {} ELSE
     {Q(SelA, <<>>, from, to, MQ("count_over_time", r, s, u)) : r \in {1, 2}, s \in {1, 2, 4}, from \in {2, 3}, to \in {5, 6}, u \in {1, 15}}
     \cup {Q(SelA, <<>>, 2, 6, MQ(fn, 2, 2, u)) : fn \in {"rate", "bytes_rate", "bytes_over_time"}, u \in {1, 15}}
     \cup {Q(SelA, <<Lbl(SLeaf("b", "=", "v1"))>>, 2, 6, MQ(fn, 2, 2, u)) : fn \in {"count_over_time", "rate"}, u \in {1, 15}}
@@ -70,14 +71,15 @@ KindU(k, t, fmt) == CASE k = 0 -> MEnt(U1, t, 1, "log", fmt, FldN("n1"))
                       [] k = 4 -> MEnt(U3, t, 1, "log", fmt, FldN("n3"))
                       [] k = 5 -> MEnt(U1, t, 1, "log", fmt, FldN("w"))
                       [] k = 6 -> MEnt(U1, t, 1, "log", fmt, FldN(""))
+                      [] k = 7 -> MEnt(U3, t, 1, "log", fmt, FldN("n0"))
 TicksOfU(mask) == {t \in 2..7 : Bit(mask, t - 2)}
 DBOfU(mask, digits, fmt) == LET ts == SortSeq(SetToSeq(TicksOfU(mask)), <)
-                            IN  [i \in 1..Len(ts) |-> KindU((digits \div PowN(7, i - 1)) % 7, ts[i], fmt)]
-DIsU == UNION {{m * 343 + d : d \in 0..(PowN(7, Cardinality(TicksOfU(m))) - 1)} :
+                            IN  [i \in 1..Len(ts) |-> KindU((digits \div PowN(8, i - 1)) % 8, ts[i], fmt)]
+DIsU == IF "U" \notin Frags THEN {} ELSE UNION {{m * 512 + d : d \in 0..(PowN(8, Cardinality(TicksOfU(m))) - 1)} :
                  m \in {mm \in 1..63 : Cardinality(TicksOfU(mm)) <= MaxEntries}}
 UnwrapFns == {"sum_over_time", "avg_over_time", "min_over_time", "max_over_time", "first_over_time", "last_over_time", "rate_unwrap"}
 UGrp(mq, kind, names) == [mq EXCEPT !.ugrp = kind, !.uglbls = names]
-QueriesU == IF Frag # "U" THEN {} ELSE
+QueriesU == IF "U" \notin Frags THEN {} ELSE
     {Q(SelA \o <<M("b", "=~", "R_any")>>, <<JP(<<Par("n", "n")>>), Unwrap("n")>>, 2, 6, UGrp(MQ(fn, 2, 2, 1), g[1], g[2])) :
         fn \in UnwrapFns, g \in {<<"by", {"a"}>>, <<"by", {"a", "b"}>>, <<"without", {"n", "b", "x"}>>}}
     \cup {Q(<<M("a", "=~", "R_v1v2")>>, <<RX(<<"n">>), Unwrap("n")>>, 2, 6, UGrp(MQ(fn, 2, 2, 1), "by", {"a"})) :
@@ -107,7 +109,7 @@ Groupings == {<<"", "prefix", {}>>, <<"by", "prefix", {"a"}>>, <<"by", "suffix",
               <<"without", "prefix", {"b"}>>, <<"without", "suffix", {"a"}>>, <<"by", "suffix", {"a", "b"}>>}
 Base == MQ("count_over_time", 2, 2, 1)
 QA(mq) == Q(SelAll, <<>>, 2, 6, mq)
-QueriesA == IF Frag # "A" THEN {} ELSE
+QueriesA == IF "A" \notin Frags THEN {} ELSE
     {QA(Agg(Base, ag, g[1], g[2], g[3])) : ag \in {"sum", "min", "max", "avg", "count"}, g \in Groupings}
     \cup {QA(Agg(MQ("rate", 2, 2, 1), ag, "by", "prefix", {"a"})) : ag \in {"sum", "avg"}}
     \cup {QA([Base EXCEPT !.cmpl = Cmp(o, 6)]) : o \in {">", ">=", "<", "<="}}
@@ -128,39 +130,39 @@ QueriesA == IF Frag # "A" THEN {} ELSE
 SecondsH == <<14, 15, 16, 29, 30, 31, 32, 33, 44, 45, 47, 48, 59, 60, 63>>
 DBOfH(mask) == LET ps == SortSeq(SetToSeq({i \in 1..Len(SecondsH) : Bit(mask, i - 1)}), <)
                IN  [j \in 1..Len(ps) |-> MEnt(A1, SecondsH[ps[j]], 1, "log", "plain", NoFld)]
-DIsH == {m \in 1..(Pow2(Len(SecondsH)) - 1) : Cardinality({i \in 1..Len(SecondsH) : Bit(m, i - 1)}) <= 2}
-QueriesH == IF Frag # "H" THEN {} ELSE
+DIsH == IF "H" \notin Frags THEN {} ELSE {m \in 1..(Pow2(Len(SecondsH)) - 1) : Cardinality({i \in 1..Len(SecondsH) : Bit(m, i - 1)}) <= 2}
+QueriesH == IF "H" \notin Frags THEN {} ELSE
     {Q(SelA, <<>>, r, 3 * r, MQ(fn, r, r, 1)) : fn \in {"count_over_time", "rate"}, r \in {15, 16, 20}}
 
 (*--------------------------------------------- enumeration -------------------------------------------------*)
-QSeq == CASE Frag = "R" -> SetToSeq(QueriesR)
-          [] Frag = "U" -> SetToSeq(QueriesU)
-          [] Frag = "A" -> SetToSeq(QueriesA)
-          [] Frag = "H" -> SetToSeq(QueriesH)
-          [] Frag = "S" -> [i \in DOMAIN SCases |-> SCases[i].q]
-DIs(qi) == CASE Frag = "R" -> DIsR
-             [] Frag = "U" -> DIsU
-             [] Frag = "A" -> 1..256
-             [] Frag = "H" -> DIsH
-             [] OTHER -> {1}
-DBAt(qi, di, q) == CASE Frag = "R" -> DBOfR(di \div 64, di % 64)
-                     [] Frag = "U" -> DBOfU(di \div 343, di % 343, FmtOfQ(q))
-                     [] Frag = "A" -> DBOfA(di - 1)
-                     [] Frag = "H" -> DBOfH(di)
-                     [] Frag = "S" -> SCases[qi].db
+Tag(f, S) == {[frag |-> f, q |-> q, db0 |-> <<>>] : q \in S}
+QSeq == SetToSeq(Tag("R", QueriesR) \cup Tag("U", QueriesU) \cup Tag("A", QueriesA) \cup Tag("H", QueriesH))
+        \o (IF "S" \in Frags THEN (LET sc == SCases IN [i \in DOMAIN sc |-> [frag |-> "S", q |-> sc[i].q, db0 |-> sc[i].db]]) ELSE <<>>)
+DIs(f) == CASE f = "R" -> DIsR
+            [] f = "U" -> DIsU
+            [] f = "A" -> 1..256
+            [] f = "H" -> DIsH
+            [] OTHER -> {1}
+DBAt(cq, di) == CASE cq.frag = "R" -> DBOfR(di \div 64, di % 64)
+                  [] cq.frag = "U" -> DBOfU(di \div 512, di % 512, FmtOfQ(cq.q))
+                  [] cq.frag = "A" -> DBOfA(di - 1)
+                  [] cq.frag = "H" -> DBOfH(di)
+                  [] cq.frag = "S" -> cq.db0
 
 IsCase == idx % 100000 # 0
 NoRes == [err |-> FALSE, series |-> {}]
 Init == LET qs == QSeq IN
         \E qi \in DOMAIN qs :
             /\ idx = qi * 100000
-            /\ c = [q |-> qs[qi], db |-> <<>>]
+            /\ c = [frag |-> qs[qi].frag, q |-> qs[qi].q, db0 |-> qs[qi].db0, db |-> <<>>]
             /\ exp = {}
             /\ pl = NoRes
 Next == /\ ~IsCase
-        /\ \E di \in DIs(idx \div 100000) :
+        /\ \E di \in DIs(c.frag) :
+            (* DBMods[frag] = 1: every database; n > 1: the seeded 1/n sample of the databases (quick tier)          *)
+            /\ (di * 31 + (idx \div 100000) * 17 + ExportSeed) % DBMods[c.frag] = 0
             /\ idx' = idx + di
-            /\ c' = [q |-> c.q, db |-> DBAt(idx \div 100000, di, c.q)]
+            /\ c' = [c EXCEPT !.db = DBAt(c, di)]
             /\ exp' = EvalMetric(c'.q, c'.db)
             /\ pl' = PlanMetric(c'.q, c'.db)
 Spec == Init /\ [][Next]_vars
@@ -177,10 +179,10 @@ OnlyWidenedWindowContributes ==
     IsCase => LET inside == SelectSeq(c.db, LAMBDA e : WidenedFrom(c.q) <= e.t /\ e.t < WidenedTo(c.q))
               IN  EvalMetric(c.q, inside) = exp
 
+(* E: what the definition allows / demands, P: what the mechanism yields                                       *)
 PtsAgree(E, P) ==
     /\ \A p \in P : p.opt \/ \E e \in E : e.t = p.t /\ REq(e.v, p.v)
-    /\ \A e \in E : e.opt \/ \E p \in P : p.t = e.t /\ REq(e.v, p.v)
-    /\ \A p \in P : \A e \in E : (e.t = p.t /\ ~e.opt /\ ~p.opt) => REq(e.v, p.v)
+    /\ \A e \in E : e.opt \/ \E p \in P : p.t = e.t
 PtsOf(S, l) == UNION {s.pts : s \in {x \in S : x.lbls = l}}
 Agrees == \A l \in {s.lbls : s \in exp \cup pl.series} : PtsAgree(PtsOf(exp, l), PtsOf(pl.series, l))
 Differs == pl.err \/ ~Agrees
@@ -193,12 +195,12 @@ DevClass ==
 PtOut(p) == [t |-> p.t, num |-> p.v.num, den |-> p.v.den, opt |-> p.opt]
 SerOut(S) == LET sq == SetToSeq(S)
              IN  [i \in 1..Len(sq) |-> [lbls |-> sq[i].lbls, pts |-> LET ps == SetToSeq(sq[i].pts) IN [j \in 1..Len(ps) |-> PtOut(ps[j])]]]
-CaseRec == [frag |-> Frag, idx |-> idx, q |-> c.q, db |-> c.db, mexp |-> SerOut(exp),
+CaseRec == [frag |-> c.frag, idx |-> idx, q |-> c.q, db |-> c.db, mexp |-> SerOut(exp),
             dev |-> Differs, plerr |-> pl.err, mpl |-> IF Differs THEN SerOut(pl.series) ELSE <<>>]
 Hash == ((idx \div 100000) * 7919 + (idx % 100000) * 10007 + ExportSeed) % 1000003
-Selected == IF Differs THEN ExportModDev > 0 /\ Hash % ExportModDev = 0
-            ELSE ExportMod > 0 /\ Hash % ExportMod = 0
+Selected == IF Differs THEN ModsDev[c.frag] > 0 /\ Hash % ModsDev[c.frag] = 0
+            ELSE Mods[c.frag] > 0 /\ Hash % Mods[c.frag] = 0
 Export == IsCase =>
-          /\ Differs => PrintT(<<"C08DEV", idx, DevClass>>)
+          /\ Differs => PrintT(<<"C08DEV", idx, c.frag, DevClass>>)
           /\ Selected => PrintT(<<"C08CASE", ToJson(CaseRec)>>)
 =============================================================================
